@@ -133,20 +133,21 @@ class P(flow.Plan):
         traces, inputs = [], []
         for i in range(n):
             rng = _r.Random(sd * 6007 + i)
-            descs = xform_rec.random_descs(rng, rng.randint(8, 20), True)
-            traces.append(xform_rec.run_descs(descs, True, {"driver": "random", "seed": sd * 6007 + i}))
-            inputs.append({"exact": True, "descs": descs})
+            exact = i % 3 != 2
+            descs = xform_rec.random_descs(rng, rng.randint(8, 20), True) if exact else xform_rec.rotation_descs(rng)
+            traces.append(xform_rec.run_descs(descs, exact, {"driver": "random", "seed": sd * 6007 + i}))
+            inputs.append({"exact": exact, "descs": descs})
         cp = check_c13.P()
         ctl = [c for c in cp.controls(traces) if c["meta"]["control"]["clause"] == "C13_Matrix"][:1]
         failures, done, _ = flow.validate(cp, traces + ctl)
         if ctl and not [f for f in failures if f[0] == len(traces) and f[2] == "C13_Matrix"]:
             raise flow.MachineryError("C04_Map: the planted wrong matrix was not detected")
-        checks = sum((done[i][1] or {}).get("C13_Matrix", 0) for i in range(len(traces)))
+        checks = sum((done[i][1] or {}).get("C13_Matrix", 0) + (done[i][1] or {}).get("C13_Angle", 0) for i in range(len(traces)))
         if checks == 0:
             raise flow.MachineryError("C04_Map never exercised")
         out, seen = [], set()
         for f in failures:
-            if f[0] < len(traces) and f[2] == "C13_Matrix" and f[0] not in seen:
+            if f[0] < len(traces) and f[2] in ("C13_Matrix", "C13_Angle") and f[0] not in seen:
                 seen.add(f[0])
                 out.append({"clause": "C04_Map", "step": f[1], "meta": traces[f[0]]["meta"], "input": inputs[f[0]],
                             "failing_event": {"call": traces[f[0]]["ev"][f[1] - 1].get("call"), "descs": inputs[f[0]]["descs"][:f[1]]}})
@@ -246,9 +247,9 @@ def run(pid, tier, replay=None):
             from . import check_c13, xform_rec
             from .common import EXIT_OK, EXIT_VIOLATION, say
             inp = payload["input"]
-            traces = [xform_rec.run_descs(inp["descs"], True, {"driver": "replay"})]
+            traces = [xform_rec.run_descs(inp["descs"], inp.get("exact", True), {"driver": "replay"})]
             failures, _, _ = flow.validate(check_c13.P(), traces)
-            bad = [f for f in failures if f[2] == "C13_Matrix"]
+            bad = [f for f in failures if f[2] in ("C13_Matrix", "C13_Angle")]
             if bad:
                 say("VIOLATION property=C04 replay=%s" % replay)
                 say("  clause C04_Map false at step %d" % bad[0][1])
